@@ -73,6 +73,20 @@ def run(ctx):
             if a != q and a != "\\":
                 cases.append((q + "\\x" + a + q, "x" + a, "\\x incomplete"))
                 cases.append((q + "\\x" + a + q + " 'k'", None, "\\x incomplete then more source"))
+    # every ordered pair of bytes written raw (or, where a byte cannot be raw, with a backslash): adjacent bytes must not interact (CR LF, backslash-newline, ...)
+    ctl = list(range(1, 33)) + [34, 39, 47, 48, 65, 92, 110, 120, 127]
+    pool = ctl if quick else list(range(1, 128))
+    def rawest(c, q):
+        sps = dict(spellings(c, q))
+        return sps.get("raw") or sps.get("backslash") or sps["hex-lower"]
+    for a in pool:
+        for b in pool:
+            for q in "'\"":
+                cases.append((q + rawest(a, q) + rawest(b, q) + q, chr(a) + chr(b), "raw pair"))
+    for t3 in ([13, 10, 13], [10, 13, 10], [13, 13, 10], [92, 13, 10], [13, 10, 92], [9, 13, 10], [13, 10, 39], [13, 10, 34]):
+        for q in "'\"":
+            cases.append((q + "".join(rawest(c, q) for c in t3) + q, "".join(chr(c) for c in t3), "raw pair"))
+            cases.append((q + "a" + "".join(rawest(c, q) for c in t3) + "z" + q, "a" + "".join(chr(c) for c in t3) + "z", "raw pair"))
     # random ASCII strings with mixed spellings
     for _ in range(300 if quick else 6000):
         q = rng.choice("'\"")
@@ -120,7 +134,7 @@ def run(ctx):
     ctx.coverage["kinds"] = kinds
     ctx.coverage["exhaustive"] = True
     ctx.coverage["exhaustive_over"] = "every byte 0x01..0x7f x every spelling x both quotes (alone and embedded)" + ("" if quick else "; \\x followed by every pair of ASCII characters")
-    ctx.coverage["rule"] = ("every byte 0x01..0x7f x {raw, named escape, \\xhh, \\xHH, backslash-char} x {single, double quotes} alone and embedded; \\x followed by 0/1/2 hex digits and other characters "
+    ctx.coverage["rule"] = ("every byte 0x01..0x7f x {raw, named escape, \\xhh, \\xHH, backslash-char} x {single, double quotes} alone and embedded; every ordered pair of bytes (control characters, quotes, backslash and a few others; all of 0x01..0x7f in the thorough tier) written as raw as the quote style allows; \\x followed by 0/1/2 hex digits and other characters "
                             "(all pairs in the thorough tier); random mixed spellings: `find all <literal>` must compile, match b as one whole-text match and match no near miss of the same length; "
                             "token lexemes compared with the model; non-trivial = literals fully confirmed")
     ctx.sample({"literal": cases[0][0], "kind": cases[0][2]})
